@@ -256,13 +256,23 @@ def _row_of(X, i):
     return PyRow(V.rcols(X), V.rnth(X, i))
 
 
-def _source_rows(ex, it, st):
+def _note_iteration(st, what, node=None):
+    """Ghost event log (C18): an iteration of a row iterable OBJECT is started here.  ``what`` is the object's term (or
+    ('each', seq term) for chain.from_iterable); the flag says whether this happens inside a loop body of the function."""
+    ev = list(st.ghost.get("iter_events", []))
+    ev.append((what, st.ghost.get("loop_depth", 0) > 0))
+    st.ghost["iter_events"] = ev
+
+
+def _source_rows(ex, it, st, note=True):
     """The row sequence a ``for`` / comprehension over ``it`` runs through, or None."""
     if isinstance(it, SV) and it.td == TRowDict:
         return None  # iterating a dict yields its keys
     if isinstance(it, SV) and it.z.sort() == V.RS:
         return it.z
     if isinstance(it, SV) and isinstance(it.td, TRefT) and is_ri(ex, it.td.cls):
+        if note:
+            _note_iteration(st, it.z)
         return V.content(it.z)
     if isinstance(it, PyIterOf):
         return it.z
@@ -318,6 +328,7 @@ def _loop_over_rows(ex, stmt, X, st, ordinal, enumerate_=False):
     b = h.fork()
     b.assume(0 <= i, i < n, inv_z(i, b))
     b.path.append(f"L{stmt.lineno}:{label}:iter")
+    b.ghost["loop_depth"] = b.ghost.get("loop_depth", 0) + 1
     row = _row_of(X, i)
     if enumerate_:
         a = ex.assign_target(stmt.target, PyTuple([SV(TInt, i), row]), b, stmt)
@@ -325,7 +336,11 @@ def _loop_over_rows(ex, stmt, X, st, ordinal, enumerate_=False):
         a = ex.assign_target(stmt.target, row, b, stmt)
     assert a is None
     out = []
+    n_ev = len(b.ghost.get("iter_events", []))
     for r in ex.exec_block(stmt.body, b):
+        if len(r.state.ghost.get("iter_events", [])) != n_ev:
+            # C18: one pass per source -- a row iterable iterated inside the loop body would be iterated once per row
+            ex.oblige(r.state, f"{label}/starts-no-iteration-inside-the-loop-body", z3.BoolVal(False), stmt, kind="effect")
         if r.kind in ("fall", "continue"):
             ex.oblige(r.state, f"{label}/preserve", inv_z(i + 1, r.state), stmt, kind="loop-preserve")
         elif r.kind == "break":
@@ -449,7 +464,7 @@ def _builtin(ex, name, args, kwargs, st, node):
         return ex.ok(SV(V.TRS, args[0].z), st)  # the dict of rows is abstracted by its value sequence
     if name == "len" and len(args) == 1 and isinstance(args[0], SV) and args[0].z.sort() == V.RS:
         return ex.ok(SV(TInt, V.rlen(args[0].z)), st)
-    if name == "enumerate" and len(args) == 1 and _source_rows(ex, args[0], st) is not None:
+    if name == "enumerate" and len(args) == 1 and _source_rows(ex, args[0], st, note=False) is not None:
         return ex.ok(PyEnumerate(args[0]), st)
     if name == "list" and len(args) == 1:
         X = _source_rows(ex, args[0], st)
@@ -460,6 +475,7 @@ def _builtin(ex, name, args, kwargs, st, node):
         if isinstance(v, (PyList, PyTuple)):
             v = ex.to_sv(v, SeqRef, st, node)
         if isinstance(v, SV) and v.z.sort() == SeqRef.sort:
+            _note_iteration(st, ("each", v.z))
             return ex.ok(PyIterOf(chain_all(v.z)), st)
     return None
 
@@ -595,9 +611,36 @@ def register(reg):
                 k.setup = lambda c: c.state.ghost.__setitem__("yielded", V.REMPTY(gen_cols(c)))
         return k
 
-    iter_contract("RowSequence")
-    iter_contract("RowMapping")
-    iter_contract("ChainRowIterable")
+    def events_are(expected):
+        """C18: the iterations of row iterable objects this call starts (ghost event log of the executed path) are exactly these,
+        each outside any loop."""
+        def f(c):
+            want = expected(c)
+            got = c.state.ghost.get("iter_events", [])
+            ok = len(got) == len(want)
+            for (gw, inloop), w in zip(got, want):
+                same = (isinstance(gw, tuple) and isinstance(w, tuple) and gw[0] == w[0] and gw[1].eq(w[1])) or (not isinstance(gw, tuple) and not isinstance(w, tuple) and gw.eq(w))
+                ok = ok and same and not inloop
+            return B(z3.BoolVal(bool(ok)))
+        return f
+
+    def at_most_self(c):
+        got = c.state.ghost.get("iter_events", [])
+        ok = len(got) <= 1 and all((not isinstance(w, tuple)) and w.eq(c.self.z) and not inloop for w, inloop in got)
+        return B(z3.BoolVal(bool(ok)))
+
+    PC18 = ("C01", "C18")
+    for cn in CLASSES:
+        k = reg.contract(f"{MOD}:{cn}.__init__", properties=PC18)
+        k.ens("starts-no-iteration", events_are(lambda c: []))
+    iter_contract("RowSequence").ens("one-pass-over-each-source", events_are(lambda c: []))
+    iter_contract("RowMapping").ens("one-pass-over-each-source", events_are(lambda c: []))
+    iter_contract("ChainRowIterable").ens("one-pass-over-each-source", events_are(lambda c: [("each", at("chain")(c.self.z))]))
+    for cn in ("CalculationRowIterable", "ProjectionRowIterable", "SelectionRowIterable", "SliceRowIterable"):
+        k = reg.contract(f"{MOD}:{cn}.__iter__", properties=PC18)
+        k.ens("one-pass-over-each-source", events_are(lambda c: [at("target")(c.self.z)]))
+    for cn in ("RowSequence", "RowMapping", "ChainRowIterable"):
+        reg.contract(f"{MOD}:{cn}.__iter__", properties=PC18)
     iter_contract("CalculationRowIterable", gen_cols=lambda c: z3.SetAdd(V.rcols(X(c)), at("tag")(c.self.z)),
                   inv=lambda c, i, env, S: B(z3.And(S.z == X(c), yielded(c) == V.s_mapc(at("tag")(c.self.z), at("callable")(c.self.z), V.rprefix(S.z, i.z)))))
     iter_contract("ProjectionRowIterable", gen_cols=lambda c: at("columns")(c.self.z),
@@ -626,7 +669,12 @@ def register(reg):
     k.requires.clear(), k.ensures.clear()
     k.ens("same-rows", lambda c: B(V.content(c.result.z) == V.content(c.self.z)))
     k.ens("result-holds-its-rows", lambda c: B(mat(c, c.result.z)))
-    k = reg.contract(f"{MOD}:RowIterable.to_sequence", virtual=True, properties=P, result_td=TIt)
+    for m in ("to_mapping", "sliced"):
+        k = reg.contract(f"{MOD}:RowIterable.{m}", properties=PC18)
+    reg.contracts[f"{MOD}:RowIterable.to_mapping"].ens("iterates-nothing-but-itself-at-most-once", at_most_self)
+    reg.contracts[f"{MOD}:RowIterable.sliced"].ens("starts-no-iteration", events_are(lambda c: []))
+    k = reg.contract(f"{MOD}:RowIterable.to_sequence", virtual=True, properties=PC18, result_td=TIt)
+    k.ens("iterates-nothing-but-itself-at-most-once", at_most_self)
     k.ens("same-rows", lambda c: B(V.content(c.result.z) == V.content(c.self.z)))
     k.ens("result-is-a-row-sequence", lambda c: B(smt.typ(c.result.z) == cid(c, "RowSequence")))
 
